@@ -173,6 +173,7 @@ UNPROVED = (
     "PunyCase are hypotheses, evaluated on the real codec on every run, not proved of CPython's idna codec. These are decided "
     "on every run by the oracle over every transformation of the statement (thorough: every pair) and by the "
     "model-vs-implementation comparison of both spellings"
+    " (Since /repo 6e09416, FX-C01-6e09416: a query key / value is re-quoted with the safe set '/+'; the per-component hypothesis for it is cleanItem — a raw '+' and '%2B' are inside it, each is its own canonical spelling in both modes.)"
 )
 OPTS = [(False, False), (True, False), (False, True), (True, True)]
 TN = sorted(urlgen.C02_TRANSFORMS)
@@ -219,6 +220,9 @@ IDEM_CORPUS = [
     "http://[v1.x\xa0]/", "custom:///p", "zz://?q", "custom://", "http://[v1.[]/", "http://x[v1.[]/", "http://[V1.x]/",
     "http://u[::1%7A]@a.com/", "http:///p", "http://@/p",
     "http://a%ABb.com/", "http://[::1%7A]:80/", "http://u:p@a.com:80/a/../b%2Fc/?k=%26#f%20", "svn+ssh://a.com/p",
+    # FX-C01-6e09416: '+' (a space in a query) and '%2B' (a plus sign) each are their own canonical spelling, in both
+    # modes and through the four mode round trips
+    "http://a.com/p?a=%2B&b=+", "http://a.com/p?a%2Bb=c+d&a+b=c%2bd", "http://a.com/?q=c%2B%2B+faq&+=%2B#+%2B",
 ]
 CORPUS = [
     ("/%2541", []), ("/%7F", []), ("/%C2%85", []), ("/x%E3%80%80", []), ("/x%C2%A0", []), ("/%2F", []), ("/a/..", []), ("/%2E%2E/b", []),
